@@ -735,6 +735,9 @@ class Gen:
         if self.bias == 'safe' and depth_ok and r.random() < 0.3:
             self.safe_stmt(env, out, indent)
             return
+        if self.bias == 'cond' and indent == 1 and scal and r.random() < 0.12:
+            self.copy_compare(env, out, indent)
+            return
         if x < 0.22 or not scal:
             e = self.expr(env) if r.random() < 0.6 else self.lit()
             typ = self.decl_type_for(e)
@@ -963,6 +966,70 @@ class Gen:
         # fallback: assignment from a condition value
         if scal:
             self.emit(out, indent, ['%s = ' % r.choice(scal)[0], self.cond(env), ';'])
+
+    def copy_compare(self, env, out, indent):
+        """a copy of a variable is compared with the original inside some nesting within a loop, and one of the
+        two is modified later in the loop body (exercises the same-expression / follow-variable reasoning of the
+        condition checks)"""
+        r = self.rng
+        self.feat('copy-compare')
+        cands = [v for v in env.writable_scalars() if v[1] in ('int', 'long', 'long long') and v[0] not in self.tainted]
+        if not cands:
+            return
+        a, t = r.choice(cands)
+        b = self.newvar('cp')
+        cv = self.newvar('c')
+        self.emit(out, indent, ['%s %s = %s;' % (t, b, a)])
+        self.emit(out, indent, ['int %s = 0;' % cv])
+        n = r.randint(2, 4)
+        loop = r.choice(['while', 'for', 'do'])
+        if loop == 'while':
+            self.emit(out, indent, ['while (%s < %d) {' % (cv, n)])
+        elif loop == 'for':
+            self.emit(out, indent, ['for (; %s < %d; ) {' % (cv, n)])
+        else:
+            self.emit(out, indent, ['do {'])
+        nest = r.choice(['plain', 'if', 'switch', 'block', 'if-block'])
+        ind = indent + 1
+        closers = []
+        if nest in ('if', 'if-block'):
+            self.emit(out, ind, ['if (%s >= 0) {' % cv])
+            closers.append((ind, '}'))
+            ind += 1
+        if nest == 'switch':
+            self.emit(out, ind, ['switch (%s) {' % cv])
+            self.emit(out, ind, ['default: {'])
+            closers.append((ind, '}'))
+            closers.append((ind, '}'))
+            ind += 1
+        if nest in ('block', 'if-block'):
+            self.emit(out, ind, ['{'])
+            closers.append((ind, '}'))
+            ind += 1
+        op = r.choice(['==', '!=', '<=', '>=', '<', '>'])
+        va = N('var', a, pid=self.pid(), t=t)
+        vb = N('var', b, pid=self.pid(), t=t)
+        if r.random() < 0.5:
+            va, vb = vb, va
+        cmpn = N('bin', op, va, vb, pid=self.pid(), t='int')
+        sink = self.newvar('k')
+        self.emit(out, ind, ['int %s = 0;' % sink])
+        self.emit(out, ind, ['if (', cmpn, ') {'])
+        self.emit(out, ind + 1, ['%s = 1;' % sink])
+        self.emit(out, ind, ['}'])
+        if nest == 'switch':
+            self.emit(out, ind, ['break;'])
+        for i_, c_ in reversed(closers):
+            self.emit(out, i_, [c_])
+        tgt = r.choice([a, b])
+        self.emit(out, indent + 1, [r.choice(['%s = %s + 1;', '%s += 2;', '%s++;', '%s = %s - 1;']).replace('%s', tgt)])
+        self.emit(out, indent + 1, ['%s++;' % cv])
+        if loop == 'do':
+            self.emit(out, indent, ['} while (%s < %d);' % (cv, n)])
+        else:
+            self.emit(out, indent, ['}'])
+        env.add('scalar', b, t)
+        env.add('scalar', cv, 'int')
 
     def safe_stmt(self, env, out, indent):
         """constructs the UB checkers look at, correct by construction (guards hold on every path)"""
